@@ -134,8 +134,58 @@ func Timing(rng *rand.Rand) *Scn {
 	sc.EndLong = rng.Intn(2) == 0
 	if rng.Intn(6) == 0 {
 		sc.CloseAt = rng.Intn(len(sc.Chunks) + 1)
+		// every other one: Close while the parser waits in Read, then one reader return at a time
+		sc.CloseStop = rng.Intn(2) == 0
 	}
 	return sc
+}
+
+// CloseThenReturn: Close is requested while the parser waits in Read, then the reader returns ONE chunk: that must stop the
+// parser whatever the chunk ends with - in particular inside a multi-byte scalar (after 1, 2, 3 bytes of scalars of 2, 3,
+// 4 bytes), alone or after complete characters, after a lone ESC, inside a control sequence or string.  The rest of the
+// scalar and "z" would be the next return, then the end of input.
+func CloseThenReturn() []*Scn {
+	var out []*Scn
+	h := func(s string) Chunk { return Chunk{Hex: Hex([]byte(s))} }
+	befores := []string{"", "x", "\x1b", "\x1b[1", "\x1b]0;t", "\x1bP1$rq", "ab\xe4\xb8"}
+	n := 0
+	add := func(before, ret, rest string) {
+		n++
+		sc := &Scn{Kind: "close-then-return", End: "eof", Consumer: []string{"eager", "lazy", "stalled"}[n%3], Retain: n%4 == 3,
+			CloseAt: 0, CloseStop: true}
+		if n%5 == 4 {
+			sc.End = "error"
+		}
+		if before != "" {
+			sc.Chunks = append(sc.Chunks, Chunk{Hex: Hex([]byte(before))})
+			sc.CloseAt = 1
+		}
+		sc.Chunks = append(sc.Chunks, h(ret))
+		if rest != "" {
+			sc.Chunks = append(sc.Chunks, h(rest))
+		}
+		out = append(out, sc)
+	}
+	for _, before := range befores {
+		for _, w := range wide {
+			for k := 1; k < len(w); k++ {
+				if before == "ab\xe4\xb8" {
+					add(before, "\x96"+w[:k], w[k:]+"z") // the return completes one scalar and begins the next
+					continue
+				}
+				add(before, w[:k], w[k:]+"z")
+				if before == "" || before == "\x1b" {
+					add(before, "a"+w[:k], w[k:]+"z") // a complete character, then the beginning of one
+					add(before, "e\u0301"+w[:k], w[k:]+"z")
+				}
+			}
+		}
+		// controls: the return ends with a complete scalar, a lone ESC, inside a sequence or string
+		for _, ret := range []string{"a", "é", "\x1b", "\x1b[1;", "\x1b]0;x", "世界"} {
+			add(before, ret, "z")
+		}
+	}
+	return out
 }
 
 // Fixed corner cases: one per clause of the property.
